@@ -405,8 +405,11 @@ def generate_and_replay(module, name, constants, exe, exe_args=("replay",), inva
     stdin.  Returns dict(tlc=TlcResult, summary=dict, fails=[dict], harness_rc=int, harness_err=str)."""
     cfg = os.path.join(cfg_dir(), "%s-%s.cfg" % (module, name))
     write_cfg(cfg, spec=spec, constants=constants, invariants=list(invariants) + [emit], properties=properties)
+    lastbeh = os.path.join(cfg_dir(), "%s-%s-%d.lastbeh" % (module, name, os.getpid()))
+    henv = dict(os.environ)
+    henv["VERIF_LASTBEH"] = lastbeh
     hp = subprocess.Popen([exe] + list(exe_args), stdin=subprocess.PIPE, stdout=subprocess.PIPE, text=True,
-                          bufsize=1 << 20)
+                          bufsize=1 << 20, env=henv)
     out_lines = []
     import threading
 
@@ -436,26 +439,57 @@ def generate_and_replay(module, name, constants, exe, exe_args=("replay",), inva
         except subprocess.TimeoutExpired:
             hp.kill()
         th.join()
-    summary, fails, herr = None, [], None
+    summary, fails, herr, tlines = None, [], None, []
     for line in out_lines:
-        if line.startswith("SUMMARY "):
+        if line.startswith("T "):
+            tlines.append(line[2:])
+        elif line.startswith("SUMMARY "):
             summary = json.loads(line[8:])
         elif line.startswith("FAIL "):
             fails.append(json.loads(line[5:]))
         elif line.startswith("HARNESS-ERROR"):
             herr = line.strip()
-    if herr or summary is None or hp.returncode != 0:
+    crash = None
+    if hp.returncode is not None and (hp.returncode < 0 or hp.returncode in (1, 134, 139)) and not herr:
+        # the library crashed (signal / abort / sanitizer) while executing a behaviour: that is an observation,
+        # not a failure of the machinery.  The replayer keeps the behaviour being executed in VERIF_LASTBEH.
+        beh = ""
+        try:
+            beh = open(lastbeh).read()
+        except OSError:
+            pass
+        crash = {"rc": hp.returncode, "beh": beh}
+        if summary is None:
+            summary = {"behaviours": 1, "steps": 0, "failed": 1, "fail_keys": {"crash": 1}, "classes": 0,
+                       "class_list": [], "sample": "", "shape_diffs": 0}
+    elif herr or summary is None or hp.returncode != 0:
         raise ModelFailure("replayer failed on %s/%s: rc=%s %s" % (module, name, hp.returncode, herr))
+    try:
+        os.unlink(lastbeh)
+    except OSError:
+        pass
     if res.violated:
         raise ModelFailure("the specification itself violates %s in %s/%s:\n%s" % (res.violated, module, name, res.tail))
-    return {"tlc": res, "summary": summary, "fails": fails, "name": name}
+    return {"tlc": res, "summary": summary, "fails": fails, "name": name, "trace_lines": tlines, "crash": crash}
 
 
 def record_trace(exe, args, path, timeout=600):
     with open(path, "w") as f:
         r = subprocess.run([exe] + [str(a) for a in args], stdout=f, stderr=subprocess.PIPE, text=True, timeout=timeout)
-    if r.returncode != 0:
+    if r.returncode == 2:
         raise ModelFailure("recorder failed rc=%s: %s" % (r.returncode, r.stderr[-2000:]))
+    if r.returncode != 0:
+        # the library crashed under the recorder (signal, abort, sanitizer report): terminal event that no
+        # specification action matches, so the trace is rejected at this line
+        kind = "Sanitizer" if ("Sanitizer" in r.stderr or "runtime error" in r.stderr) else "Crash"
+        frame = ""
+        m = re.search(r"(/[^\s:]*(?:include/ipr|src)/[^\s:]+:\d+)", r.stderr)
+        if m:
+            frame = m.group(1)
+        with open(path, "a") as f:
+            f.write("\n" if not open(path).read().endswith("\n") and os.path.getsize(path) else "")
+            f.write(json.dumps({"e": kind, "op": kind, "rc": r.returncode, "frame": frame,
+                                "detail": r.stderr[-600:]}) + "\n")
     return path
 
 
